@@ -23,16 +23,87 @@ def build_cases(tier, seed):
     return cases
 
 
+def hashseed_job(arg):
+    """The same program evaluated by brand-new interpreters with different PYTHONHASHSEED values against one store:
+    after the first run no kept function executes and the signatures stay the same."""
+    import json
+    import os
+    import pickle
+    import subprocess
+    import sys
+
+    from vp import gen
+
+    idx, p, seeds = arg
+    rep = core.Report("C02")
+    rep.evaluations = 1
+    f = p["fns"][p["entry"]]
+    case = {"hashseed": True, "program": p, "seeds": seeds, "idx": idx}
+    kept_names = set(p["fns"][n["fn"]]["name"] for n in gen.kept_nodes(p).values() if n["fn"])
+    outs = []
+    with core.Scratch("vp_c02h_") as td:
+        root, sdir = os.path.join(td, "code"), os.path.join(td, "store")
+        os.makedirs(root)
+        seg = {"mode": "impl", "root": root, "accept": [p["pkg"]] + gen.lazy_modules(p), "store": {"kind": "local", "dir": sdir},
+               "steps": [{"write": gen.render(p), "how": "import", "modules": gen.import_order(p), "entry": {"style": "eval", "module": gen.modname(p, f["module"]), "func": f["name"], "args_src": "()"}}]}
+        with open(os.path.join(td, "seg.json"), "w") as fh:
+            json.dump(seg, fh)
+        for hs in seeds:
+            env = dict(os.environ, PYTHONHASHSEED=hs, PYTHONPATH=core.repo_dir() + os.pathsep + core.VERIF_DIR)
+            op = os.path.join(td, "out_%d.pkl" % len(outs))
+            try:
+                r = subprocess.run([sys.executable, "-m", "vp.segcli", os.path.join(td, "seg.json"), op], env=env, cwd=core.VERIF_DIR, timeout=300, capture_output=True, text=True)
+            except subprocess.TimeoutExpired:
+                rep.inconclusive.append("hash-seed run timed out")
+                return rep
+            if r.returncode != 0 or not os.path.exists(op):
+                rep.inconclusive.append("hash-seed run failed: %s" % r.stderr[-300:])
+                return rep
+            with open(op, "rb") as fh:
+                outs.append(pickle.load(fh)["steps"][0])
+    for o in outs:
+        if "setup_error" in o or o.get("result", ("exc",))[0] != "ok":
+            rep.inconclusive.append("hash-seed run did not evaluate: %r" % (o.get("setup_error") or o.get("result"),))
+            return rep
+    first = outs[0]
+    for hs, o in list(zip(seeds, outs))[1:]:
+        rep.count("memo_must_be_served", len(kept_names))
+        rep.count("restarts_with_other_hash_seed")
+        ran = [x for x in o["log"] if x in kept_names]
+        if ran:
+            rep.violate("program %s: a new interpreter with PYTHONHASHSEED=%s re-executed kept functions %r although nothing changed (first run with PYTHONHASHSEED=%s)" % (p["pkg"], hs, sorted(set(ran))[:5], seeds[0]),
+                        case, mechanism="recomputed-under-other-hash-seed")
+        elif o["syncs"] != first["syncs"]:
+            rep.violate("program %s: signatures differ under PYTHONHASHSEED=%s" % (p["pkg"], hs), case, mechanism="recomputed-under-other-hash-seed")
+        elif pickle.loads(o["result"][1]) != pickle.loads(first["result"][1]):
+            rep.violate("program %s: value differs under PYTHONHASHSEED=%s" % (p["pkg"], hs), case, mechanism="recomputed-under-other-hash-seed")
+    rep.nontriv(("c02hash", gen.h(gen.render(p))))
+    return rep
+
+
 def run(tier, seed):
     rep = core.Report("C02")
     rep.rule = (
         "zero-edit histories (re-evaluation, fresh process, unrelated definitions added before/between/after in every module, reordering, edits of non-accepted code, relocation to another accepted "
         "package, switching between f() and dds.eval(f)) over 5 module layouts/import forms x plain and data-function entries; every single edit of the dependency matrix (see C01) with revert and restart; "
-        "random programs with random histories. For every kept node at every step: cone fingerprint seen before => body absent from the execution log and signature unchanged. "
+        "random programs with random histories; restarts in brand-new interpreters with other PYTHONHASHSEED values (programs with module-level sets of strings). For every kept node at every step: cone fingerprint seen before => body absent from the execution log and signature unchanged. "
         "distinct_nontrivial = distinct cases in which at least one node was served from the store."
     )
     cases = build_cases(tier, seed)
     e1run.run_cases(cases, "C02", ["memo"], rep)
+    # restarts under other hash seeds (real interpreters): programs with a module-level set of strings, dict variables ...
+    rng = core.rng_for(seed, "c02h")
+    hp = [progs.base_program("c2h0", setvar=True), progs.base_program("c2h1", layout="one", setvar=True, entry_data=True)]
+    while len(hp) < (8 if tier == "quick" else 40):
+        q = progs.random_program(rng, "c2h%d" % len(hp))
+        if q.get("setvar") or len(hp) % 2:
+            hp.append(q)
+    hjobs = [(i, q, ["1", "2", "random", "0"]) for i, q in enumerate(hp)]
+    for j, r in zip(hjobs, core.fork_map(hashseed_job, hjobs, timeout=1200)):
+        if isinstance(r, core.JobFailed):
+            rep.inconclusive.append("hash-seed job: %r" % (r,))
+        else:
+            rep.merge(r)
     rep.sample({"case": cases[0]["name"], "history": cases[0]["history"][:8], "edits": [v.get("kind") for v in cases[0]["edit_desc"].values()][:12]})
     rep.assumptions = ["dependency cone as defined in DESIGN.md 4.1; memory store obligations only within one process; noop store excluded"]
     if rep.counters.get("memo_must_be_served", 0) == 0:
@@ -44,6 +115,10 @@ def replay(payload):
     from vp import e1
 
     rep = core.Report("C02")
+    if payload["case"].get("hashseed"):
+        c = payload["case"]
+        rep.merge(hashseed_job((c["idx"], c["program"], c["seeds"])))
+        return rep
     case = payload["case"]["case"]
     obs = e1.run_case(case)
     if obs["failed"]:
